@@ -1034,6 +1034,52 @@ def empty_compressed_records(out: hlib.RecWriter) -> None:
                        'sig': {'kind': 'rt', 'action': 'emptyCompressed', 'layout': layout, 'src': 'synth', 'view': view}})
 
 
+def ents_records(out: hlib.RecWriter, rng: random.Random) -> None:
+    """Entity lumps built through the VMF API: keys, values with every character the escape table
+    knows, outputs with either separator."""
+    from srctools.vmf import Output
+    values = ['', '0', 'a b', '1 2 3', 'models/props/a.mdl', 'say "hi"', 'back\\slash', 'tab\there', 'line\nbreak',
+              "it's", ' lead', 'trail ', 'a,b,c', 'ümlaut'.encode('utf8').decode('ascii', 'surrogateescape'), '{brace}', '// no comment',
+              '\\"', '*12', 'x' * 300]
+    keys = ['targetname', 'origin', 'angles', 'message', 'spawnflags', 'Mixed_Case', 'rendercolor', 'parentname', 'k9', 'model_alt']
+    for n in range(240 if THOROUGH else 40):
+        layout = rng.choice(['v20', 'v21', 'v19', 'chaos'])
+        sep_mode = rng.choice([True, False, None])
+        bsp = base_bsp(layout)
+        vmf = VMF()
+        vmf.spawn['classname'] = 'worldspawn'
+        for k in rng.sample(keys, rng.randint(0, 3)):
+            vmf.spawn[k] = rng.choice(values)
+        for _ in range(rng.randint(0, 4)):
+            ent = Entity(vmf, {'classname': rng.choice(['info_target', 'logic_relay', 'func_button'])})
+            for k in rng.sample(keys, rng.randint(0, 5)):
+                ent[k] = rng.choice(values)
+            for _ in range(rng.randint(0, 3)):
+                comma = rng.random() < 0.5 if sep_mode is None else sep_mode
+                param = rng.choice(['', '1', 'a b', 'say "x"', 'p\\q'] + ([] if comma else ['a,b', '1,2,3,4']))
+                ent.add_out(Output(rng.choice(['OnTrigger', 'OnUser1', 'OnMapSpawn']), rng.choice(['tgt', '!self', 'a*']),
+                                   rng.choice(['Kill', 'FireUser1', 'SetValue']), param, rng.choice([0.0, 0.5, 1.25, 10.0, 0.015625]),
+                                   times=rng.choice([-1, 1, 3]), comma_sep=comma,
+                                   inst_out=rng.choice([None, None, 'inner']), inst_in=rng.choice([None, None, 'rel'])))
+            vmf.add_ent(ent)
+        err = ''
+        diff: list = []
+        try:
+            bsp.ents = vmf
+            bsp.out_comma_sep = sep_mode
+            path = os.path.join(TMP, 'ents.bsp')
+            quiet_save(bsp, path)
+            want = L.Projector(bsp)
+            bsp.ents = vmf      # (save() popped the view; project the very objects that were written)
+            exp = want.view('ents')
+            got = L.Projector(BSP(path)).view('ents')
+            diff = [['ents', lab] for lab in sorted(L.diff_labels(exp, got, 'ents', set()))]
+        except Exception as exc:    # noqa: BLE001
+            err = type(exc).__name__
+        out.write({'k': 'rt', 'layout': layout, 'wseed': n, 'fmt': 'ents', 'diff': diff, 'error': err,
+                   'sig': {'kind': 'rt', 'action': 'ents', 'layout': layout, 'src': 'random', 'sep': str(sep_mode)}})
+
+
 def main() -> None:
     mode = sys.argv[1]
     rng = random.Random(f'{hlib.seed()}/{mode}')
@@ -1062,6 +1108,7 @@ def main() -> None:
             out = hlib.RecWriter(sys.argv[2])
             transplant_records(out, rng)
             empty_compressed_records(out)
+            ents_records(out, rng)
         elif mode == 'replay':
             with open(sys.argv[2]) as f:
                 rp = json.load(f)
